@@ -448,6 +448,40 @@ def applyItem (S : Schema) (rec : Nat → List Val → Bytes → Option (List Va
        | none => none)
     | _, _ => none
 
+/-! ### Merge (what decoding into a non-empty message computes; `proto.Merge`) -/
+
+/-- Go map assignments in order -/
+def insertAll (l : List (Bytes × Bytes)) (es : List (Bytes × Bytes)) : List (Bytes × Bytes) :=
+  es.foldl (fun acc e => AList.insert acc e.1 e.2) l
+
+mutual
+/-- merge the field value `v` into the existing field value `a`: set scalars/strings
+    overwrite, unset ones keep, repeated fields append, maps assign, messages merge -/
+def mergeVal (S : Schema) (ty : FType) (a : Val) : Val → Val
+  | .int i => if i = 0 then a else .int i
+  | .str b => if b = [] then a else .str b
+  | .none => a
+  | .msg fs => match ty with
+      | .msg m => .msg (mergeFields S (S.fieldsOf m) (curMsg S m (some a)) fs)
+      | _ => a
+  | .strs l => match a with
+      | .strs l0 => .strs (l0 ++ l)
+      | _ => a
+  | .list l => match a with
+      | .list l0 => .list (l0 ++ l)
+      | _ => a
+  | .smap l => match a with
+      | .smap l0 => .smap (insertAll l0 l)
+      | _ => a
+def mergeFields (S : Schema) : List Field → List Val → List Val → List Val
+  | f :: fs, a :: as, v :: vs => mergeVal S f.ty a v :: mergeFields S fs as vs
+  | _, as, _ => as
+end
+
+/-- `proto.Merge(dst, src)` on message values of type `m` -/
+def merge (S : Schema) (m : Nat) (dst src : List Val) : List Val :=
+  mergeFields S (S.fieldsOf m) dst src
+
 /-- decode `bs` (all of it) as message type `m` into `acc`; one unit of fuel per record -/
 def decMsg (S : Schema) : Nat → Nat → List Val → Bytes → Option (List Val)
   | 0, _, acc, bs => match bs with
